@@ -97,10 +97,25 @@ def wrapping_family():
     return out
 
 
+def literal_layout_family():
+    """module constants that are multi-line strings (either triple quote, ending their statement or followed by code) holding blank-line runs,
+    trailing blanks and tabs, next to unsorted imports and an over-long line: what the closing layout stages (import sorting, wrapping, blank
+    line limiting, whitespace minimisation) do to the text around a literal must settle, with the blank-line cap switched off by a literal
+    (keep_syntax_tree rejects the whole-module substitution) or not"""
+    out = []
+    for q1, run, second, long_line in itertools.product(("\'\'\'", '"""'), (0, 3, 5), ("none", "\'\'\'", '"""', "call"), (False, True)):
+        usage = f"USAGE = {q1}usage: tool [options] FILE\n" + "\n" * run + f"options:\n  -h   show this text  \n\t-q   be quiet\n{q1}\n"
+        banner = {"none": "", "call": "BANNER = str(\'\'\'\n  tool 1.0\n\'\'\')\n"}.get(second, f"BANNER = {second}\n  tool 1.0\n{second}\n")
+        longl = "    print(USAGE, QUIET, argv, len(argv), sorted(argv), reversed(argv), list(argv), tuple(argv), set(argv), 1000)\n" if long_line else ""
+        out.append("import sys\nimport os\n\n" + usage + "\n" + banner + "QUIET = \"-q\" in sys.argv\n\n\ndef main(argv):\n    if not QUIET:\n        print(os.sep" + (", BANNER" if banner else "")
+                   + ")\n" + longl + "    if \"-h\" in argv:\n        print(USAGE)\n        return 0\n    return len(argv)\n\n\nsys.exit(main(sys.argv))\n")
+    return out
+
+
 # unreachable statements after a return inside nested if blocks: both orientations of the if/else swap were "preferred" (alternated forever)
 TARGETED = TARGETED + ["import sys\n\n\ndef run(a, b, log):\n    if log:\n        if a:\n            if b:\n                return 1\n                print(a)\n                print(b)\n                log(a)\n"
                        "            return 2\n            print(b)\n            print(a)\n            log(b)\n        log(a, b)\n    return 3\n\n\nsys.exit(run(*sys.argv))\n"]
-TARGETED = TARGETED + orientation_family() + fallback_family() + wrapping_family()
+TARGETED = TARGETED + orientation_family() + fallback_family() + wrapping_family() + literal_layout_family()
 OPTS = [{}, {"safe": True}, {"keep_imports": True}, {"safe": True, "keep_imports": True}, {"max_line_length": 60}, {"max_line_length": 79, "safe": True}]
 N_APPLICATIONS = 6
 BUDGET = 5
